@@ -456,8 +456,12 @@ impl Formatter {
       if level <= 2 {
         format!("{}. {}\n-------------------------------------------------------------------------------\n", numbers[0], text)
       } else {
-        let depth = if level == 3 { 2 } else { (level as usize - 1).min(numbers.len()) };
-        let number = numbers[..depth].iter().map(|n| n.to_string()).collect::<Vec<String>>().join(".");
+        // The level of a sub-heading is the number of components of its label plus one; only five counters
+        // are kept, deeper levels are padded so that the label keeps its length.
+        let depth = if level == 3 { 2 } else { level as usize - 1 };
+        let mut parts: Vec<String> = numbers.iter().take(depth).map(|n| n.to_string()).collect();
+        while parts.len() < depth { parts.push("1".to_string()); }
+        let number = parts.join(".");
         format!("({}) {}\n", number, text)
       }
     }
